@@ -537,6 +537,11 @@ class AbsoluteSequence(AbstractSequence):
         if not self.is_channel_consistent():
             raise SequenceException("Sequence has inconsistent channels.")
 
+        # The internal end marker is not on a channel of its own, prefer the channel of an actual event
+        for msg in self._messages:
+            if msg.message_type != MessageType.INTERNAL:
+                return msg.channel
+
         return self._messages[0].channel
 
     def get_sequence_duration(self) -> int:
@@ -553,7 +558,7 @@ class AbsoluteSequence(AbstractSequence):
         Returns: True if the channel numbers are consistent, False otherwise.
 
         """
-        for msg in self._messages:
-            if msg.channel != self._messages[0].channel:
-                return False
-        return True
+        # The internal end marker carries the channel of whatever message came first in the relative representation
+        # (possibly a rest), it does not take part in the comparison
+        channels = set(msg.channel for msg in self._messages if msg.message_type != MessageType.INTERNAL)
+        return len(channels) <= 1
